@@ -96,7 +96,7 @@ CHECKS = {
     design="5/C11"),
  "C09": dict(
     text="No operator of the reference specification mentions a container kind; the same values are executed under every container / static-knowledge kind (compile-time constant tuples, clipped integers, std::array, raw arrays, nmtools/utl static_vector, std::vector, utl::vector, utl::array, run-time tuples, mixed pairs; raw, nested, fixed, hybrid, dynamic and ndarray_t arrays; compile-time and run-time axis/shape arguments) in three builds (g++ with assertions, g++ -O2 -DNDEBUG, clang++) and TLC validates every result against the one reference (a compile-time rejection counts as 'reports failure'), which proves pairwise agreement and agreement with the compile-time evaluation; the addressing and broadcasting models are model-checked as part of the run.",
-    note="Trusted: TLC, Denote, drv_config.cpp (macro-instantiated kinds over a fixed value set), drv_kinds.cpp (kinds matrix: 20 array kinds incl. the 15 ndarray kind tags x 36 view events x 5 (quick) / 9 (thorough) compile-time shapes). The run-time kinds additionally run the complete tables of C01, C05, C06, C11, C19, C20. The NMTOOLS_DISABLE_STL build is attempted in the thorough tier only.",
+    note="Trusted: TLC, Denote, drv_config.cpp (macro-instantiated kinds over a fixed value set), drv_kinds.cpp (kinds matrix: 20 array kinds incl. the 15 ndarray kind tags x 44 view events x 5 (quick) / 9 (thorough) compile-time shapes). The run-time kinds additionally run the complete tables of C01, C05, C06, C11, C19, C20. The NMTOOLS_DISABLE_STL build is attempted in the thorough tier only.",
     technique="single TLA+ reference semantics; trace validation by TLC of the same cases under every configuration",
     design="5/C09"),
  "C02": dict(
